@@ -202,10 +202,8 @@ func (r *reference) resolve(cfg *Config, opts *options) (value, error) {
 		return nil, err
 	}
 
-	if s == "" {
-		return nil, nil
-	}
-
+	// the resolver has answered: the name is set, also when the answer is the
+	// empty string (like a setting holding "")
 	return newString(context{field: r.Path.String()}, nil, s), nil
 }
 
